@@ -163,6 +163,8 @@ func featgenCases() []packCase {
 			add(fmt.Sprint("optchain:literal-base:", i), "() => "+strings.ReplaceAll(form, "%B", base), false)
 		}
 	}
+	// an async arrow whose only use of "this" is implicit, through super property access
+	add("async:arrow-super-implicit-this", "async () => { class B { get x() { return this.v; } set x(v) { this.w = v; } m2() { return this.v; } } class A extends B { v = "+P("7")+"; a() { return (async () => super.x)(); } b() { return (async () => { super.x = 5; return 1; })(); } c() { return (async () => super.m2())(); } } var o = new A(); return [await o.a(), await o.b(), o.w, await o.c()]; }", true)
 	add("class:field-define-semantics", "() => { class A { set x(v) { $("+p()+", \"setter\", v); } get ro() { return \"proto\"; } } class B extends A { x = 1; ro = 2; } var b = new B(); return [Object.getOwnPropertyDescriptor(b, \"x\"), b.ro]; }", false)
 	add("class:static-field-define", "() => { class A { static set x(v) { $("+p()+", \"setter\", v); } } class B extends A { static x = 1; } return Object.getOwnPropertyDescriptor(B, \"x\"); }", false)
 	add("class:field-this-arrow", "() => { class C { v = 1; f = () => this.v; static sf = () => this.name === void 0 ? 0 : typeof this; } var c = new C(), f = c.f; return [f(), C.sf()]; }", false)
